@@ -18,6 +18,7 @@ Step(ev) ==
       [] ev.e = "Sendmsg" /\ ev.g = "pusher" -> v' = (IF v.pushFd >= 0 THEN [v EXCEPT !.inHandler = @ \cup {v.pushFd}] ELSE v) /\ UNCHANGED viol
       [] ev.e = "PushEnd" -> v' = [v EXCEPT !.inHandler = @ \ {ev.n}, !.busyAtSweep = @ \ {ev.n}, !.pushFd = -1] /\ UNCHANGED viol
       [] ev.e = "FdOpen" /\ ev.k = "1" -> v' = OpenEff(ev.n) /\ UNCHANGED viol
+      [] ev.e = "FdClose" /\ ev.k = "1" -> v' = FdCloseEff(ev.n) /\ UNCHANGED viol
       [] ev.e = "Sweep" -> v' = SweepEff /\ UNCHANGED viol
       [] ev.e = "ShutdownCall" -> v' = CallEff /\ UNCHANGED viol
       [] ev.e = "ShutdownRet" -> v' = [v EXCEPT !.ret = ev.err] /\ Judge(ev, RetViol(ev.err))
